@@ -10,6 +10,7 @@ from lib import common
 from lib.common import hx, Corr
 from . import keyslib as K
 
+EXTRA_PROPS = ["C09t"]   # translator tie of keys.py / curves.py / PEM (Generated/KeysSlices.lean)
 RULE = ("per named curve: d in {1, 2, 3, n-1, n-2, 256^(l-1)-1, 256^(l-1), 256^(l-2)-1, first d whose x resp. y has a "
         "leading zero byte, random}; every key through to_string/from_string (4 point encodings), to_der/from_der and "
         "to_pem/from_pem (3 point encodings + the rejected raw, ssleay and pkcs8), plus independently encoded variants "
